@@ -56,6 +56,12 @@ func (d *directChannel) handleNewPeer(s network.Stream) {
 		return
 	}
 
+	if length64 > DelimitedReadMaxSize {
+		// checked before the conversion: a length of 2^63 or more would become negative
+		d.logger.Error(fmt.Sprintf("received data exceeding maximum allowed size (%d > %d)", length64, DelimitedReadMaxSize))
+		return
+	}
+
 	length := int(length64)
 
 	if length > DelimitedReadMaxSize {
